@@ -81,6 +81,14 @@ def alistSet {κ ν : Type} [BEq κ] (d : AList κ ν) (k : κ) (v : ν) : AList
 /-- `s.add(x)` on a set kept as a duplicate-free list -/
 def pySetAdd {α : Type} [BEq α] (s : List α) (x : α) : List α := if s.elem x then s else s ++ [x]
 
+/-- pandas `frame["geometry"] = series` on a frame of (label, data, geometry) rows and a series of (label, value) entries: positional when the two
+indexes are identical; otherwise the series is re-indexed by the frame's labels -- ValueError when the series index has duplicate labels, `nan` for a
+label the series lacks -/
+def pyAssignAligned {L D G : Type} [BEq L] (frame : List (L × D × G)) (series : List (L × G)) (nan : G) : Except String (List (L × D × G)) :=
+  if frame.map (·.1) == series.map (·.1) then .ok (List.zipWith (fun r s => (r.1, r.2.1, s.2)) frame series)
+  else if (series.map (·.1)).any (fun l => (series.map (·.1)).count l > 1) then .error "ValueError"
+  else .ok (frame.map fun r => (r.1, r.2.1, match series.find? (·.1 == r.1) with | some s => s.2 | none => nan))
+
 /-- the cache columns `LineData` keeps in the frame it wraps (`None` = the frame has no such column) -/
 structure LineCols where
   length : Option (List Rat) := none
